@@ -29,6 +29,8 @@ type vconn struct {
 	out        []byte // bytes the server wrote
 	closed     bool
 	failWrites bool
+	nextTicket int // Read calls are served in arrival order
+	serving    int
 	local      net.Addr
 	remote     net.Addr
 }
@@ -41,6 +43,17 @@ func newVconn(local, remote net.IP) *vconn {
 func (c *vconn) Read(b []byte) (int, error) {
 	c.mu.Lock()
 	defer c.mu.Unlock()
+	// like a socket, one Read call at a time; callers are served in the order in which they arrived (a legal schedule of the
+	// runtime's descriptor lock, and the one that separates a reader's header from its body when a second reader is waiting)
+	ticket := c.nextTicket
+	c.nextTicket++
+	for c.serving != ticket {
+		c.cond.Wait()
+	}
+	defer func() {
+		c.serving++
+		c.cond.Broadcast()
+	}()
 	for len(c.in) == 0 && !c.closed {
 		c.cond.Wait()
 	}
